@@ -6,6 +6,7 @@
 set -e
 REPO="${VERIF_REPO:-/repo}"
 HERE="$(cd "$(dirname "$0")" && pwd)"
+VERIF_FEATURE='"verif"'
 gen() { # name features...
   local name="$1"; shift
   local feats=""
@@ -26,7 +27,7 @@ doctest = false
 test = false
 
 [features]
-default = [${feats}"verif"]
+default = [${feats}${VERIF_FEATURE}]
 std = []
 compact = []
 alloc = []
@@ -44,3 +45,8 @@ gen ml_nostd
 gen ml_nostd_alloc alloc
 gen ml_nostd_compact compact
 gen ml_nostd_compact_alloc compact alloc
+# the crate exactly as a user builds it, without the verification hook feature (C05 compares these with the
+# hooked builds, so that code behind cfg(not(feature = "verif")) cannot hide from the harness)
+VERIF_FEATURE=''
+gen ml_default_plain std
+gen ml_compact_plain std compact
